@@ -4,8 +4,29 @@ from collections import deque
 from .expr import CALL_KINDS
 
 
+# standard-library members that cannot throw: no synthetic exception edge leaves them
+NOTHROW_STD = {"operator->", "operator*", "get", "operator bool", "size", "empty", "begin", "end", "cbegin", "cend", "data", "load", "store",
+               "exchange", "fetch_add", "fetch_sub", "compare_exchange_strong", "compare_exchange_weak", "front", "back", "c_str", "length",
+               "joinable", "get_id", "notify_one", "notify_all", "unlock", "owns_lock", "count", "swap", "move", "forward", "addressof",
+               "operator!=", "operator==", "operator<", "operator++", "operator--", "has_value", "value_or", "release", "reset", "time_since_epoch",
+               "now", "min", "max", "operator[]", "find", "end", "rbegin", "rend", "capacity", "clear", "pop_front", "pop_back"}
+
+
 def may_throw_elem(e):
-    return e.kind == "stmt" and e.node.get("k") in CALL_KINDS + ("throw",)
+    if e.kind != "stmt":
+        return False
+    n = e.node
+    k = n.get("k")
+    if k == "throw":
+        return True
+    if k not in CALL_KINDS:
+        return False
+    c = n.get("callee") or ""
+    if c.startswith("std::") and c.split("::")[-1] in NOTHROW_STD:
+        return False
+    if k == "ctor" and n.get("cls", "").startswith(("std::lock_guard", "std::unique_lock", "std::shared_lock")):
+        return False
+    return True
 
 
 def eh_targets(f, e):
